@@ -112,6 +112,34 @@ def handle (entry : String) (j : Json) : Except String Json := do
     if tbl.isEmpty then throw "table_getitem: empty table"
     pure <| Json.mkObj [("model", optJson ratToJson (tableGetItem tbl idx)),
                         ("spec", ratToJson (interpCyc tbl idx))]
+  | "table_op" =>
+    let t1 ← getList getRat (← field j "table")
+    let c1 ← getRat (← field j "cycles")
+    let kind ← getStr (← field j "kind")
+    let op : TOp ← match fieldD j "op" (Json.str "add") with
+      | Json.str "add" => pure TOp.add | Json.str "sub" => pure TOp.sub
+      | Json.str "mul" => pure TOp.mul | Json.str "div" => pure TOp.div
+      | _ => throw "bad op"
+    match kind with
+    | "binary" =>
+      let t2 ← getList getRat (← field j "table2")
+      let c2 ← getRat (← field j "cycles2")
+      pure <| Json.mkObj [("model", exceptJson (tblBinary op t1 c1 t2 c2))]
+    | "scalar" =>
+      let x ← getRat (← field j "x")
+      let refl ← getBool (← field j "reflected")
+      pure <| Json.mkObj [("model", Json.mkObj [("out", rats (tblScalar op t1 x refl))])]
+    | "neg" => pure <| Json.mkObj [("model", Json.mkObj [("out", rats (tblNeg t1))])]
+    | "normalize" => pure <| Json.mkObj [("model", exceptJson (tblNormalize t1))]
+    | "harmonize" =>
+      let hs ← getList (fun h => do
+        let p ← getNat (← field h "p")
+        let a ← getRat (← field h "a")
+        pure (p, a)) (← field j "harm")
+      let divisible := hs.all fun pa => t1.length % (pa.1 + 1) == 0
+      pure <| Json.mkObj [("model", Json.mkObj [("out", rats (tblHarmonize t1 hs))]),
+        ("spec", if divisible then rats (harmonizeSpec t1 hs) else Json.null)]
+    | _ => throw "bad kind"
   | "sinusoid" =>
     let twoPi ← getRat (← field j "two_pi")
     let freq ← getArg (← field j "freq")
